@@ -1,10 +1,13 @@
 #!/bin/bash
-# tools/thorough_all.sh [wall-seconds-per-check] : thorough tier of every claimed check, one after another (background use)
-wall=${1:-240}
-for id in $(/venv/bin/python -c "import json; print(' '.join(c['property_id'] for c in json.load(open('MANIFEST.json'))['checks']))" 2>/dev/null); do
+# tools/thorough_all.sh [wall-seconds-per-check] [ID ...] : thorough tier of the given (default: every claimed) checks,
+# one after another (background use, e.g. `vp run -- tools/thorough_all.sh 300 C19 C20`)
+wall=${1:-240}; shift
+ids="$*"
+[ -n "$ids" ] || ids=$(/venv/bin/python -c "import json; print(' '.join(c['property_id'] for c in json.load(open('MANIFEST.json'))['checks']))" 2>/dev/null)
+for id in $ids; do
   start=$(date +%s)
   out=$(./check $id --tier thorough --wall $wall 2>&1); rc=$?
   end=$(date +%s)
   echo "$id rc=$rc wall=$((end-start))s $(echo "$out" | grep -o 'runs=[0-9]*/[0-9]*' | head -1) known=$(echo "$out" | grep -c '^KNOWN-FINDING') violations=$(echo "$out" | grep -c '^VIOLATION')"
-  if [ $rc -ne 0 ]; then echo "$out" | grep -v -i conda | grep "rule=\|VIOLATION\|HARNESS" | head -8 | cut -c1-400; fi
+  if [ $rc -ne 0 ]; then echo "$out" | grep -v -i conda | grep "rule=\|VIOLATION\|HARNESS" | head -8 | cut -c1-400; mkdir -p /tmp/thorough-replays; cp replays/$id-* /tmp/thorough-replays/ 2>/dev/null; fi
 done
